@@ -962,6 +962,8 @@ structure Hyps where
   fieldCallbacksCounted : Bool
   blobsAligned : Bool
   noDiscriminatedUnion : Bool
+  boxedFuncsUnset : Bool
+  nBoxed : Nat
   deprecatedUnions : Nat
   nObjects : Nat
   nOddInterfaceObjects : Nat
@@ -987,6 +989,10 @@ def checkHyps (t : Bytes) : Hyps :=
     fieldCallbacksCounted := objects.all (fun e => (objFlags e).count true == (objCounts c e.2).nFieldCallbacks)
     blobsAligned := es.all (fun e => e.2 % 4 == 0)
     noDiscriminatedUnion := unions.all (fun e => getF t e.2 (fld "UnionBlob" "discriminated") == 0)
+    -- girnode.c never gives a BLOB_TYPE_BOXED StructBlob a copy/free function (hypothesis of C09_struct_func_name)
+    boxedFuncsUnset := (es.filter (fun e => e.1 == K "GI_INFO_TYPE_BOXED")).all (fun e =>
+      getF t e.2 (fld "StructBlob" "copy_func") == 0 && getF t e.2 (fld "StructBlob" "free_func") == 0)
+    nBoxed := (es.filter (fun e => e.1 == K "GI_INFO_TYPE_BOXED")).length
     deprecatedUnions := (unions.filter (fun e => getF t e.2 (fld "UnionBlob" "deprecated") != 0)).length
     nObjects := objects.length
     nOddInterfaceObjects := (objects.filter (fun e => (objCounts c e.2).nInterfaces % 2 == 1)).length
